@@ -1,22 +1,46 @@
-// ---- abstract view of the fungible token state ----
+// =================================================================================================
+// spec pack `fungible` — abstract view, operation relation, invariant and history lemmas for
+// C01 (supply conservation / event replay) and C02 (authorization / allowances).
+// Everything here is ghost; the executable text comes from /repo.
+// =================================================================================================
+
+// ---- storage layout (generated key encodings, T7) ----
 pub open spec fn bal_key(a: Address) -> SV { FungibleStorageKey::Balance(a).sv() }
 pub open spec fn supply_key() -> SV { FungibleStorageKey::TotalSupply.sv() }
 pub open spec fn allow_key(o: Address, s: Address) -> SV {
     FungibleStorageKey::Allowance(AllowanceKey { owner: o, spender: s }).sv()
 }
+pub open spec fn is_bal_key(k: SV) -> bool {
+    match k { SV::Vec(s) => s.len() == 2 && s[0] == bal_key(Address { id: 0 })->Vec_0[0] && (s[1] is Addr), _ => false }
+}
 
+// ---- abstract view ----
 pub open spec fn bal(w: World, a: Address) -> int {
     if w.persistent.contains_key(bal_key(a)) { <i128 as ToSV>::unsv(w.persistent[bal_key(a)]) as int } else { 0 }
 }
 pub open spec fn supply(w: World) -> int {
     if w.instance.contains_key(supply_key()) { <i128 as ToSV>::unsv(w.instance[supply_key()]) as int } else { 0 }
 }
+pub open spec fn zero_allow() -> AllowanceData { AllowanceData { amount: 0, live_until_ledger: 0 } }
+pub open spec fn allow_raw(w: World, o: Address, s: Address) -> AllowanceData {
+    if w.temp_has(allow_key(o, s)) { <AllowanceData as ToSV>::unsv(w.temporary[allow_key(o, s)]) } else { zero_allow() }
+}
+/// what `allowance_data` reports: an entry past its own live_until_ledger is worth zero
+pub open spec fn allow_data(w: World, o: Address, s: Address) -> AllowanceData {
+    let d = allow_raw(w, o, s);
+    if d.live_until_ledger < w.ledger_seq { zero_allow() } else { d }
+}
+pub open spec fn allowance(w: World, o: Address, s: Address) -> int { allow_data(w, o, s).amount as int }
+
+// ---- world transformers ----
 pub open spec fn set_bal(w: World, a: Address, v: int) -> World {
     World { persistent: w.persistent.insert(bal_key(a), SV::I128(v as i128)), ..w }
 }
 pub open spec fn set_supply(w: World, v: int) -> World {
     World { instance: w.instance.insert(supply_key(), SV::I128(v as i128)), ..w }
 }
+pub open spec fn w_auth(w: World, a: Address) -> World { World { auths: w.auths.insert(a), ..w } }
+pub open spec fn w_event(w: World, ev: SV) -> World { World { events: w.events.push(ev), ..w } }
 
 /// the whole successor state of `Base::update` (touched keys and frame)
 pub open spec fn update_post(w: World, from: Option<Address>, to: Option<Address>, amount: int) -> World {
@@ -29,6 +53,237 @@ pub open spec fn update_post(w: World, from: Option<Address>, to: Option<Address
         None => set_supply(w1, supply(w1) - amount),
     }
 }
+/// when `Base::update` can return at all
+pub open spec fn update_guard(w: World, from: Option<Address>, to: Option<Address>, amount: int) -> bool {
+    &&& amount >= 0
+    &&& from.is_some() ==> bal(w, from.unwrap()) >= amount
+    &&& from.is_none() ==> supply(w) + amount <= i128::MAX
+}
 pub open spec fn opt_addr(o: Option<&Address>) -> Option<Address> {
     match o { Some(a) => Some(*a), None => None }
+}
+
+/// `set_allowance`: the stored entry and its storage lifetime
+pub open spec fn set_allow_post(w: World, o: Address, s: Address, amount: i128, live: u32) -> World {
+    let k = allow_key(o, s);
+    let w1 = temp_set(w, k, AllowanceData { amount: amount, live_until_ledger: live }.sv());
+    if amount > 0 { temp_extend(w1, k, (live - w.ledger_seq) as u32, (live - w.ledger_seq) as u32) } else { w1 }
+}
+pub open spec fn set_allow_guard(w: World, amount: i128, live: u32) -> bool {
+    &&& amount >= 0
+    &&& live as int <= w.max_live_until()
+    &&& amount > 0 ==> live >= w.ledger_seq
+}
+pub open spec fn spend_post(w: World, o: Address, s: Address, amount: i128) -> World {
+    if amount > 0 {
+        set_allow_post(w, o, s, (allowance(w, o, s) - amount) as i128, allow_data(w, o, s).live_until_ledger)
+    } else { w }
+}
+pub open spec fn spend_guard(w: World, o: Address, s: Address, amount: i128) -> bool {
+    amount >= 0 && allowance(w, o, s) >= amount
+}
+
+// ---- the public operations of the token as a relation on worlds ----
+pub enum FOp {
+    Mint { to: Address, amount: i128 },
+    Transfer { from: Address, to: Address, mux: Option<u64>, amount: i128 },
+    TransferFrom { spender: Address, from: Address, to: Address, amount: i128 },
+    Burn { from: Address, amount: i128 },
+    BurnFrom { spender: Address, from: Address, amount: i128 },
+    Approve { owner: Address, spender: Address, amount: i128, live: u32 },
+}
+
+pub open spec fn op_guard(w: World, op: FOp) -> bool {
+    match op {
+        FOp::Mint { to, amount } => update_guard(w, None, Some(to), amount as int),
+        FOp::Transfer { from, to, mux, amount } => update_guard(w, Some(from), Some(to), amount as int),
+        FOp::TransferFrom { spender, from, to, amount } =>
+            spend_guard(w, from, spender, amount) && update_guard(w, Some(from), Some(to), amount as int)
+            && (amount > 0 ==> set_allow_guard(w, (allowance(w, from, spender) - amount) as i128, allow_data(w, from, spender).live_until_ledger)),
+        FOp::Burn { from, amount } => update_guard(w, Some(from), None, amount as int),
+        FOp::BurnFrom { spender, from, amount } =>
+            spend_guard(w, from, spender, amount) && update_guard(w, Some(from), None, amount as int)
+            && (amount > 0 ==> set_allow_guard(w, (allowance(w, from, spender) - amount) as i128, allow_data(w, from, spender).live_until_ledger)),
+        FOp::Approve { owner, spender, amount, live } => set_allow_guard(w, amount, live),
+    }
+}
+
+pub open spec fn op_post(w: World, op: FOp) -> World {
+    match op {
+        FOp::Mint { to, amount } =>
+            w_event(update_post(w, None, Some(to), amount as int), Mint { to: to, amount: amount }.ev()),
+        FOp::Transfer { from, to, mux, amount } =>
+            w_event(update_post(w_auth(w, from), Some(from), Some(to), amount as int),
+                Transfer { from: from, to: to, to_muxed_id: mux, amount: amount }.ev()),
+        FOp::TransferFrom { spender, from, to, amount } =>
+            w_event(update_post(spend_post(w_auth(w, spender), from, spender, amount), Some(from), Some(to), amount as int),
+                Transfer { from: from, to: to, to_muxed_id: None, amount: amount }.ev()),
+        FOp::Burn { from, amount } =>
+            w_event(update_post(w_auth(w, from), Some(from), None, amount as int), Burn { from: from, amount: amount }.ev()),
+        FOp::BurnFrom { spender, from, amount } =>
+            w_event(update_post(spend_post(w_auth(w, spender), from, spender, amount), Some(from), None, amount as int),
+                Burn { from: from, amount: amount }.ev()),
+        FOp::Approve { owner, spender, amount, live } =>
+            w_event(set_allow_post(w_auth(w, owner), owner, spender, amount, live),
+                Approve { owner: owner, spender: spender, amount: amount, live_until_ledger: live }.ev()),
+    }
+}
+
+// ---- invariant (C01) ----
+pub open spec fn bal_proj() -> spec_fn(SV, SV) -> int {
+    |k: SV, v: SV| if is_bal_key(k) { match v { SV::I128(x) => x as int, _ => 0 } } else { 0 }
+}
+pub open spec fn sum_bal(w: World) -> int { psum(w.persistent, bal_proj()) }
+
+pub open spec fn inv(w: World) -> bool {
+    &&& forall|k: SV| #[trigger] w.persistent.contains_key(k) && is_bal_key(k) ==> (w.persistent[k] is I128) && w.persistent[k]->I128_0 >= 0
+    &&& w.instance.contains_key(supply_key()) ==> w.instance[supply_key()] is I128
+    &&& sum_bal(w) == supply(w)
+    &&& 0 <= supply(w) <= i128::MAX
+}
+
+pub proof fn lemma_bal_key_facts(a: Address)
+    ensures is_bal_key(bal_key(a)),
+{
+    assert(bal_key(a)->Vec_0.len() == 2);
+}
+pub proof fn lemma_bal_key_inj(a: Address, b: Address)
+    ensures bal_key(a) == bal_key(b) ==> a == b,
+{
+    if bal_key(a) == bal_key(b) {
+        assert(bal_key(a)->Vec_0[1] == bal_key(b)->Vec_0[1]);
+    }
+}
+
+pub proof fn lemma_inv_bal_nonneg(w: World, a: Address)
+    requires inv(w)
+    ensures 0 <= bal(w, a) <= supply(w),
+{
+    lemma_bal_key_facts(a);
+    if w.persistent.contains_key(bal_key(a)) {
+        assert(w.persistent[bal_key(a)] is I128);
+        assert forall|j: SV| w.persistent.dom().contains(j) implies bal_proj()(j, w.persistent[j]) >= 0 by {
+            assert(w.persistent.contains_key(j));
+        }
+        lemma_psum_bound(w.persistent, bal_proj(), bal_key(a));
+    }
+}
+
+pub proof fn lemma_set_bal_sum(w: World, a: Address, v: int)
+    requires inv(w), i128::MIN <= v <= i128::MAX,
+    ensures sum_bal(set_bal(w, a, v)) == sum_bal(w) - bal(w, a) + v,
+        bal(set_bal(w, a, v), a) == v,
+        forall|b: Address| b != a ==> bal(set_bal(w, a, v), b) == bal(w, b),
+        supply(set_bal(w, a, v)) == supply(w),
+{
+    lemma_bal_key_facts(a);
+    lemma_psum_insert(w.persistent, bal_proj(), bal_key(a), SV::I128(v as i128));
+    assert forall|b: Address| b != a implies bal(set_bal(w, a, v), b) == bal(w, b) by {
+        lemma_bal_key_inj(a, b);
+    }
+    if w.persistent.contains_key(bal_key(a)) {
+        assert(w.persistent[bal_key(a)] is I128);
+    }
+}
+
+/// conservation for one `update`: inv is preserved; supply moves by exactly the minted / burned
+/// amount and a transfer leaves it alone (C01)
+pub proof fn lemma_update_inv(w: World, from: Option<Address>, to: Option<Address>, amount: int)
+    requires inv(w), update_guard(w, from, to, amount),
+        //@@ C01:lemma.update_inv
+    ensures
+        from.is_some() || to.is_some() ==> inv(update_post(w, from, to, amount)),
+        from.is_some() && to.is_some() ==> supply(update_post(w, from, to, amount)) == supply(w),
+        from.is_none() && to.is_some() ==> supply(update_post(w, from, to, amount)) == supply(w) + amount,
+        from.is_some() && to.is_none() ==> supply(update_post(w, from, to, amount)) == supply(w) - amount,
+        forall|a: Address| bal(update_post(w, from, to, amount), a)
+            == bal(w, a) - (if from == Some(a) { amount } else { 0 }) + (if to == Some(a) { amount } else { 0 }),
+        update_post(w, from, to, amount).temporary == w.temporary,
+        update_post(w, from, to, amount).temp_live == w.temp_live,
+        update_post(w, from, to, amount).auths == w.auths,
+        update_post(w, from, to, amount).events == w.events,
+        update_post(w, from, to, amount).same_ledger(w),
+{
+    let w1 = match from {
+        Some(a) => set_bal(w, a, bal(w, a) - amount),
+        None => set_supply(w, supply(w) + amount),
+    };
+    match from {
+        Some(a) => {
+            lemma_inv_bal_nonneg(w, a);
+            lemma_set_bal_sum(w, a, bal(w, a) - amount);
+        }
+        None => {
+            assert(sum_bal(w1) == sum_bal(w));
+            assert(supply(w1) == supply(w) + amount);
+        }
+    }
+    // w1 satisfies the typing part of inv and bal >= 0 everywhere, but sum differs from supply by `amount`
+    let w2 = update_post(w, from, to, amount);
+    match to {
+        Some(b) => {
+            lemma_bal_key_facts(b);
+            // typing facts for w1 so that set_bal lemma applies: re-establish pieces manually
+            lemma_psum_insert(w1.persistent, bal_proj(), bal_key(b), SV::I128((bal(w1, b) + amount) as i128));
+            match from {
+                Some(a) => {
+                    lemma_inv_bal_nonneg(w, b);
+                    lemma_bal_key_inj(a, b);
+                    if a != b {
+                        // both balances are part of the same non-negative sum
+                        assert(bal(w1, b) == bal(w, b));
+                        if w.persistent.contains_key(bal_key(b)) {
+                            assert(w.persistent[bal_key(b)] is I128);
+                            if w.persistent.contains_key(bal_key(a)) {
+                                assert forall|j: SV| w.persistent.dom().contains(j) implies bal_proj()(j, w.persistent[j]) >= 0 by {
+                                    assert(w.persistent.contains_key(j));
+                                }
+                                lemma_bal_key_facts(a);
+                                assert(w.persistent[bal_key(a)] is I128);
+                                lemma_psum_bound2(w.persistent, bal_proj(), bal_key(a), bal_key(b));
+                            } else {
+                                lemma_inv_bal_nonneg(w, b);
+                            }
+                        } else {
+                            lemma_inv_bal_nonneg(w, a);
+                        }
+                    } else {
+                        lemma_inv_bal_nonneg(w, a);
+                    }
+                    assert(bal(w1, b) + amount <= supply(w));
+                    if w1.persistent.contains_key(bal_key(b)) { assert(w1.persistent[bal_key(b)] is I128); }
+                    assert(sum_bal(w2) == supply(w));
+                }
+                None => {
+                    lemma_inv_bal_nonneg(w, b);
+                    if w1.persistent.contains_key(bal_key(b)) { assert(w1.persistent[bal_key(b)] is I128); }
+                    assert(sum_bal(w2) == supply(w) + amount);
+                }
+            }
+            assert forall|a: Address| bal(w2, a) == bal(w, a) - (if from == Some(a) { amount } else { 0 }) + (if to == Some(a) { amount } else { 0 }) by {
+                lemma_bal_key_inj(a, b);
+                if from.is_some() { lemma_bal_key_inj(a, from.unwrap()); lemma_bal_key_inj(from.unwrap(), b); }
+            }
+            assert forall|k: SV| #[trigger] w2.persistent.contains_key(k) && is_bal_key(k) implies (w2.persistent[k] is I128) && w2.persistent[k]->I128_0 >= 0 by {
+                if k != bal_key(b) {
+                    if from.is_some() && k == bal_key(from.unwrap()) {} else { assert(w.persistent.contains_key(k)); }
+                }
+            }
+        }
+        None => {
+            match from {
+                Some(a) => {
+                    assert(supply(w2) == supply(w) - amount);
+                    assert(sum_bal(w2) == sum_bal(w1));
+                    assert forall|c: Address| bal(w2, c) == bal(w, c) - (if from == Some(c) { amount } else { 0 }) by {
+                        lemma_bal_key_inj(a, c);
+                    }
+                    assert forall|k: SV| #[trigger] w2.persistent.contains_key(k) && is_bal_key(k) implies (w2.persistent[k] is I128) && w2.persistent[k]->I128_0 >= 0 by {
+                        if k != bal_key(a) { assert(w.persistent.contains_key(k)); }
+                    }
+                }
+                None => {}
+            }
+        }
+    }
 }
